@@ -1377,7 +1377,12 @@ def rate_name_k(drv, prev, model, k, mon, tags, label):
     cs = model.statements.ode_system
     if c_advan not in ("ADVAN5", "ADVAN7") or cmap is None or cs is None:
         return
+    if len({c.name for c in cs._g.nodes if c != output}) < len(cs._g.nodes) - 1:
+        return      # two compartments with one name (known class duplicate-compartments-left-by-*): numbers are not defined
     n = cmap.get("OUTPUT", len(cmap) + 1)
+    if sorted(v for kk, v in cmap.items() if kk != "OUTPUT") != list(range(1, n)) or set(cs.compartment_names) != {kk for kk in cmap if kk != "OUTPUT"}:
+        tags.append("k-skip:ratename-stale-map")
+        return      # the remembered numbering is not that of this system (state monitor map_state_monitor reports it)
     before = {s_.symbol.name for s_ in prev.statements if isinstance(s_, Assignment)}
     now = {s_.symbol.name for s_ in model.statements.before_odes if isinstance(s_, Assignment)}
     expected_new = set()
